@@ -1,7 +1,7 @@
 (* C10 - reported rotation, scale, skew agree with the fitted matrix (theorems over R: they depend on the
    standard library's real-number axioms, listed by Print Assumptions below) *)
 From Coq Require Import Reals.
-From TW Require Import Atan2 Decomp.
+From TW Require Import Atan2 Decomp Atan2Inv.
 Open Scope R_scope.
 
 (* matrix = [[sx cos rx, sy sin ry], [-sx sin rx, sy cos ry]] for the reported rot and scale
@@ -38,5 +38,12 @@ Theorem C10_similarity_scales : forall a b, (a <> 0 \/ b <> 0) ->
 Proof. exact similarity_scales. Qed.
 Print Assumptions C10_similarity_scales.
 
-(* FULL (partial here): build_fit_matrix is also the LEFT inverse of the decomposition for sx, sy > 0 and
-   angles in (-180, 180] (needs atan2 (sin r) (cos r) = r); measured by the correspondence. *)
+(* build_fit_matrix is also the LEFT inverse of the decomposition: decomposing the matrix built from
+   (rx, ry, sx, sy) with positive scales and angles in (-180, 180] degrees returns exactly these values *)
+Theorem C10_decomposition_inverts_build_fit_matrix : forall rx ry sx sy,
+  0 < sx -> 0 < sy -> - PI < rx <= PI -> - PI < ry <= PI ->
+  let p0 := sx * cos rx in let q0 := - sx * sin rx in
+  let p1 := sy * sin ry in let q1 := sy * cos ry in
+  gsx p0 q0 = sx /\ gsy p1 q1 = sy /\ grotx p0 q0 = rx /\ groty p1 q1 = ry.
+Proof. exact decomposition_of_built_matrix. Qed.
+Print Assumptions C10_decomposition_inverts_build_fit_matrix.
